@@ -1085,6 +1085,22 @@ add({"name": "CatalogFragment_valid_head", "file": "dfs/dfs_catalog.cc",
                (r"error = os\.str\(\);", "error_set();", ">=1"), (r'error = "[^"]*";', "error_set();", ">=0"),
                (r"DFS::Format::(\w+)", r"Format_\1", ">=1")],
      "dropped": ["diagnostic text (that an error text is set on every refusal is kept: error_set())"]})
+add({"name": "CatalogFragment_valid_loop", "file": "dfs/dfs_catalog.cc",
+     "anchor": r"std::optional<DFS::sector_count_type> last_file_start;", "region_end": r"\}\s*Catalog::Catalog\(DFS::Format format,",
+     "sig": "static bool CatalogFragment_valid_loop(const struct CatalogFragmentM *self, unsigned short last)",
+     "rules": [(r"std::optional<DFS::sector_count_type> last_file_start;", "struct opt_sc_ last_file_start; last_file_start.has = 0; last_file_start.val = 0;", 1),
+               (r"std::string safe_name, prev_name;", "/* names kept for the diagnostic only: dropped */", 1),
+               (r"auto entry = get_entry_at_offset\(pos\);", "const struct EntryM *entry = get_entry_model(pos);", 1),
+               (r"entry\.file_length\(\)", "entry->len", ">=1"), (r"entry\.last_sector\(\)", "entry->last", ">=1"), (r"entry\.start_sector\(\)", "entry->start", ">=1"),
+               (r"safe_name = get_safe_name\(entry\);", "", 1), (r"prev_name = safe_name;", "", 1),
+               (r"\bos <<(?:[^;\"]|\"(?:[^\"\\]|\\.)*\")*;", "/* diagnostic text */;", ">=1"),
+               (r"error = os\.str\(\);", "error_set();", ">=1"),
+               (r"if \(last_file_start\)", "if (last_file_start.has)", 1), (r"\*last_file_start", "last_file_start.val", ">=1"),
+               (r"last_file_start = ([^;]*);", r"{ last_file_start.has = 1; last_file_start.val = \1; }", 1),
+               (r"\btotal_sectors\(\)", "self->total_sectors_", ">=1"),
+               (r"static_cast<unsigned short>\(", "(unsigned short)(", 1),
+               (r"(for \(unsigned short pos = 8;\s*pos <= last;\s*pos = \(unsigned short\)\(pos \+ 8\)\))", r"\1 VALID_LOOP_CONTRACT", 1)],
+     "dropped": ["diagnostic text and the file names kept for it"]})
 add({"name": "CatalogFragment_ctor", "file": "dfs/dfs_catalog.cc",
      "anchor": r"const DFS::byte title_initial\(names\[0\]\);", "region_end": r"for \(int pos = 8; pos <= position_of_last_catalog_entry_; pos \+= 8\)",
      "sig": "static void CatalogFragment_ctor(struct CatalogFragmentM *self, const SectorBuffer *names, const SectorBuffer *metadata)",
